@@ -1114,4 +1114,78 @@ theorem resupply_later_wins :
     ((exTK.peval [("k", [2])]).freeVars = ["t"]) := by
   refine ⟨by decide +kernel, by decide +kernel, by decide +kernel, by decide +kernel, by decide +kernel, by decide +kernel, by decide⟩
 
+/-! ## 9. one call that fixes the variables of several factors -/
+
+section sliceRec
+variable {K : Type} [Field K] [LinearOrder K] [IsStrictOrderedRing K]
+
+/-- the point carries exactly the fixed values on the variables of `d`, and those values lie in `d` -/
+def OnFixed (τ : Tol K) (σ pts ρ : Env K) (d : Dom K) : Prop :=
+  (∀ v ∈ d.vars, ∃ xs, pts.get v = some xs ∧ σ.get v = some xs) ∧ containsAux τ false d pts (ρ ++ σ) = some true
+
+/-- every factor that the call fixes completely is met exactly by the point, with values inside that factor -/
+def SliceOK (τ : Tol K) (σ pts ρ : Env K) : Dom K → Prop
+  | .prod a b =>
+    (if fixesAll σ a.vars = true then OnFixed τ σ pts ρ a else SliceOK τ σ pts ρ a) ∧
+    (if fixesAll σ b.vars = true then OnFixed τ σ pts ρ b else SliceOK τ σ pts ρ b)
+  | .union a b | .cut a b | .inter a b => SliceOK τ σ pts ρ a ∧ SliceOK τ σ pts ρ b
+  | _ => True
+
+/-- **One call that fixes the variables of several factors** (any nesting of products, Boolean combinations of
+    products): every completely fixed factor becomes a point — all of them, also both factors of one product —
+    and on the slice (the point carries the fixed values, which lie in their factors) the evaluated expression
+    answers exactly like the original evaluated at `ρ ∪ σ`. -/
+theorem sliceRec_on (τ πτ : Tol K) (hπ : πτ.ok) (σ pts ρ : Env K) (D : Dom K) (h : SliceOK τ σ pts ρ D) :
+    sliceRec τ πτ σ D pts ρ = contains τ D pts (ρ ++ σ) := by
+  induction D with
+  | prod a b iha ihb =>
+    simp only [SliceOK] at h
+    by_cases hfa : fixesAll σ a.vars = true <;> by_cases hfb : fixesAll σ b.vars = true <;>
+      simp only [hfa, hfb, if_true, if_false, Bool.false_eq_true] at h
+    · simp only [sliceRec, hfa, hfb, if_true, contains, containsAux, pointContains_on πτ hπ a.vars σ pts h.1.1, h.1.2,
+        pointContains_on πτ hπ b.vars σ pts h.2.1, h.2.2]
+    · have eb := ihb h.2
+      simp only [contains] at eb
+      simp only [sliceRec, hfa, hfb, if_true, if_false, Bool.false_eq_true, contains, containsAux,
+        pointContains_on πτ hπ a.vars σ pts h.1.1, h.1.2, eb]
+    · have ea := iha h.1
+      simp only [contains] at ea
+      simp only [sliceRec, hfa, hfb, if_true, if_false, Bool.false_eq_true, contains, containsAux,
+        pointContains_on πτ hπ b.vars σ pts h.2.1, h.2.2, ea]
+    · have ea := iha h.1
+      have eb := ihb h.2
+      simp only [contains] at ea eb
+      simp only [sliceRec, hfa, hfb, if_false, Bool.false_eq_true, contains, containsAux, ea, eb]
+  | union a b iha ihb | cut a b iha ihb | inter a b iha ihb =>
+    simp only [SliceOK] at h
+    have ea := iha h.1
+    have eb := ihb h.2
+    simp only [contains] at ea eb
+    simp only [sliceRec, contains, containsAux, ea, eb]
+  | _ => simp only [sliceRec, contains, peval_containsAux]
+
+/-- both factors fixed by one call: the result is the single point — a point with another value on a fixed
+    coordinate is rejected (this is what an `elif` between the two tests of `ProductDomain.__call__` breaks) -/
+theorem sliceRec_joint_close (τ πτ : Tol K) (a b : Dom K) (σ pts ρ : Env K) (w : String) (x y : K)
+    (ha : fixesAll σ a.vars = true) (hb : fixesAll σ b.vars = true) (hbv : b.vars = [w])
+    (hx : pts.get w = some [x]) (hy : σ.get w = some [y])
+    (h : sliceRec τ πτ σ (.prod a b) pts ρ = some true) : |x - y| ≤ πτ.atol + πτ.rtol * |y| := by
+  rw [hbv] at hb
+  simp only [sliceRec, ha, hb, if_true, hbv, pointContains, List.foldr_cons, List.foldr_nil, hx, hy] at h
+  obtain ⟨r, _, hr⟩ := Option.bind_eq_some_iff.1 h
+  simp at hr
+  rw [← isclose_iff]
+  exact hr.2
+
+end sliceRec
+
+/-- non-vacuity and the seeded scenario: (disc of radius t + 1) × [0, 1], fixed at x = (1/10, 1/5) and t = 1/2 by ONE
+    call: the result contains exactly that point (t = 3/4 is rejected), although it lies in the original product -/
+theorem joint_slice_example :
+    sliceRec τ0 ⟨1/1000, 1/100000, 1/1000⟩ [("x", [1/10, 1/5]), ("t", [1/2])] (.prod exSA exSB) [("x", [1/10, 1/5]), ("t", [1/2])] [] = some true ∧
+    sliceRec τ0 ⟨1/1000, 1/100000, 1/1000⟩ [("x", [1/10, 1/5]), ("t", [1/2])] (.prod exSA exSB) [("x", [1/10, 1/5]), ("t", [3/4])] [] = some false ∧
+    contains τ0 (.prod exSA exSB) [("x", [1/10, 1/5]), ("t", [3/4])] ([] ++ [("x", [1/10, 1/5]), ("t", [1/2])]) = some true ∧
+    sliceRecFreeVars [("x", [(1/10 : Rat), 1/5]), ("t", [1/2])] (.prod exSA exSB) = [] := by
+  refine ⟨by decide +kernel, by decide +kernel, by decide +kernel, by decide⟩
+
 end TPV.Geom
